@@ -703,8 +703,17 @@ class Exec(object):
                 ca = tm.to_bool(va)
                 if self.pure_expr(b):
                     n_ev = len(s1.events)
+                    stl_ = getattr(self.ctx, "stl", None)
+                    n_side = len(stl_.side) if stl_ is not None and hasattr(stl_, "side") else None
                     for s2, vb in self.ev(b, s1):
                         cb = tm.to_bool(vb)
+                        if n_side is not None:
+                            # bounds side conditions raised by the right operand hold under the short-circuit guard only
+                            g_ = ca if op == "&&" else tm.not_(ca)
+                            for k_ in range(n_side, len(stl_.side)):
+                                w_, pc_, ob_ = stl_.side[k_]
+                                stl_.side[k_] = (w_, list(pc_) + [g_], ob_)
+                            n_side = len(stl_.side)
                         # short circuit: whatever the right operand dereferences is only dereferenced when the left one lets it be evaluated
                         for e_ in s2.events[n_ev:]:
                             if e_.name == "deref" and e_.snap is not None:
